@@ -6,13 +6,17 @@ from oracle_util import *  # noqa
 from tokutil import *  # noqa
 
 ID = "C19"
-LEAN_MODULE = "SCoda.Props.C19"
+LEAN_MODULE = ["SCoda.Props.C19", "SCoda.Props.C19b"]
+LEVEL = "proof"
 CLAUSES = [
     ("the annotation lists have exactly one entry per token and positions count 0,1,2,...", ["SCoda.C19.lengths", "SCoda.C19.positions", "SCoda.C19.getInfo_eq"]),
     ("the absolute time annotated on each note token equals the onset at which detokenise places that note",
      ["SCoda.C19.clocks_agree", "SCoda.C19.note_annotation", "SCoda.C19.detokenise_eq"]),
     ("pitch and circle-of-fifths annotations equal the note's pitch and the position of its pitch class", ["SCoda.C19.note_annotation"]),
-    ("for tokenise-produced streams: in-bar time = onset - bar start, and annotated times never decrease", None),
+    ("in-bar time = time since the last bar end the detokeniser emitted (every accepted stream); for tokenise-produced streams annotated times never decrease "
+     "and the bar ends strictly increase, so 'the start of its bar' is unambiguous",
+     ["SCoda.C19.in_bar_clock", "SCoda.C19.in_bar_annotation", "SCoda.C19.times_monotone", "SCoda.C19.barEnds_increasing",
+      "SCoda.C19.dfold_detokFold", "SCoda.C19.lastBarEnd_spec"]),
 ]
 RULE = ("random streams over the vocabulary of sampled configurations (<=60 tokens: bar tokens in partly filled bars, "
         "signature tokens mid-bar, unfused running values), plus streams produced by tokenise from valid pieces, with and "
